@@ -667,9 +667,9 @@ def reporter_kind(rep):
         if rep[3] == 'None':
             return 'off'
         rep = strip(rep[4][0][1]) if rep[4] else rep
-    if mentions(rep, lambda x: is_call(x, r'MismatchReporter::new_enabled$')):
+    if mentions(rep, lambda x: is_call(x, r'MismatchReporter::new_enabled$') or (is_call(x, r'MismatchReporter::new$') and x[2] and strip(x[2][0]) == ('c', True))):
         return 'on'
-    if mentions(rep, lambda x: is_call(x, r'MismatchReporter::new_disabled$')):
+    if mentions(rep, lambda x: is_call(x, r'MismatchReporter::new_disabled$') or (is_call(x, r'MismatchReporter::new$') and x[2] and strip(x[2][0]) == ('c', False))):
         return 'off'
     if rep[0] == 'agg' and rep[3] == 'Some':
         return 'on'
@@ -718,7 +718,7 @@ def accept_closure(chk, F, rule, cfg, cf, via):
     ], config=cfg)
     for bb, t in cf.calls():
         n = symex.callee_name(t)
-        ok = bool(re.search(r'^core::ops::Fn::call$|MismatchReporter::new_disabled$', n))      # (building a switched-off reporter for the matcher consults nothing)
+        ok = bool(re.search(r'^core::ops::Fn::call$|MismatchReporter::(new_disabled|new)$', n))      # (building a switched-off reporter for the matcher consults nothing)
         chk.ob(rule, 'the accept decision only consults the input matcher (no counters, no exhaustion state)', ok, config=cfg, fn=cf, site='accept-call:%s' % n,
                what='accept predicate calls %s' % n, found=n, expected='match_inputs(call_pattern, None) only')
     for bb, s in cf.stmts():
